@@ -298,7 +298,11 @@ impl Sub {
                     for _ in 0..(n - s) {
                         b.push_front(0xEE);
                     }
-                    while b.pop_back().is_some() {}
+                    for _ in 0..=n {
+                        if b.pop_back().is_none() {
+                            break;
+                        }
+                    }
                 }
                 _ => {
                     let junk = vec![0xEEu8; n];
@@ -835,6 +839,7 @@ pub fn run_io(apis: &[Api], thorough: bool, seed: u64, threads: usize, prop_case
                     }
                     let (api, n, start, len) = units[u];
                     for (i, c) in enum_cases(n, start, len, api, thorough).iter().enumerate() {
+                        crate::watch::tick();
                         match run_io_case(c) {
                             Ok(f) => st.note(c, f),
                             Err(m) => {
@@ -871,7 +876,7 @@ pub fn run_io(apis: &[Api], thorough: bool, seed: u64, threads: usize, prop_case
                 let mut runner = TestRunner::new_with_rng(cfg, TestRng::from_seed(RngAlgorithm::ChaCha, &sb));
                 let st = std::cell::RefCell::new(IoStats::default());
                 let failed = std::cell::Cell::new(false);
-                let res = runner.run(&io_case_strategy(api, max_ops), |c| match run_io_case(&c) {
+                let res = runner.run(&io_case_strategy(api, max_ops), |c| match { crate::watch::tick(); run_io_case(&c) } {
                     Ok(f) => {
                         if !failed.get() {
                             st.borrow_mut().note(&c, f);
